@@ -13,6 +13,7 @@ import (
 	"sync/atomic"
 	"time"
 
+	"github.com/pion/ice/v4/internal/verifhook"
 	"github.com/pion/logging"
 )
 
@@ -117,6 +118,7 @@ func (c *udpMuxedConn) readPacket(
 		c.readWaiting.Add(1)
 		c.mu.Unlock()
 
+		verifhook.Yield("udpmuxed.readPacket.beforeSelect")
 		select {
 		case <-c.notify:
 		case <-c.closedChan:
@@ -172,6 +174,7 @@ func (c *udpMuxedConn) WriteToAddrPort(buf []byte, rAddr netip.AddrPort) (n int,
 // writes to it.
 func (c *udpMuxedConn) registerAddress(addr netip.AddrPort) {
 	if !c.containsAddress(addr) {
+		verifhook.Yield("udpmuxed.registerAddress.beforeAdd")
 		c.addAddress(addr)
 	}
 }
@@ -243,6 +246,7 @@ func (c *udpMuxedConn) addAddress(addr netip.AddrPort) {
 	c.addresses = append(c.addresses, addr)
 	c.mu.Unlock()
 
+	verifhook.Yield("udpmuxed.addAddress.beforeRegister")
 	// Map it on mux
 	c.params.Mux.registerConnForAddress(c, addr)
 }
@@ -284,6 +288,7 @@ func (c *udpMuxedConn) writePacket(
 	pkt.sourceAddrPort = sourceAddrPort
 	pkt.sourceAddr = sourceAddr
 
+	verifhook.Yield("udpmuxed.writePacket.beforeLock")
 	c.mu.Lock()
 	if c.closed {
 		c.mu.Unlock()
@@ -306,6 +311,7 @@ func (c *udpMuxedConn) writePacket(
 	notify := c.readWaiting.Load() > 0
 	c.mu.Unlock()
 
+	verifhook.Yield("udpmuxed.writePacket.beforeNotify")
 	if notify {
 		select {
 		case c.notify <- struct{}{}:
